@@ -110,4 +110,38 @@ theorem getString_second (a s rest : Bytes) (h : s.length < 4294967296) :
       = (s, { content := encStr a ++ encStr s ++ rest, pos := (encStr a).length + (encStr s).length }) :=
   getString_exact (encStr a) s rest h
 
+/-! ### three-string bodies, injectivity of `add_string` -/
+
+theorem parse3 (a b c : Bytes) (ha : a.length < 4294967296) (hb : b.length < 4294967296)
+    (hc : c.length < 4294967296) :
+    (rd (encStr a ++ encStr b ++ encStr c)).getString.1 = a ∧
+    (rd (encStr a ++ encStr b ++ encStr c)).getString.2.getString.1 = b ∧
+    (rd (encStr a ++ encStr b ++ encStr c)).getString.2.getString.2.getString.1 = c := by
+  have h1 := getString_exact [] a (encStr b ++ encStr c) ha
+  have h2 := getString_exact (encStr a) b (encStr c) hb
+  have h3 := getString_exact (encStr a ++ encStr b) c [] hc
+  simp only [List.nil_append, List.length_nil, Nat.zero_add, List.append_nil, List.length_append] at h1 h2 h3
+  have e : encStr a ++ encStr b ++ encStr c = encStr a ++ (encStr b ++ encStr c) := List.append_assoc _ _ _
+  unfold rd
+  rw [e, h1]
+  simp only
+  rw [← e, h2]
+  simp only
+  rw [h3]
+  simp
+
+theorem be32_inj (m n : Nat) (hm : m < 4294967296) (hn : n < 4294967296) (h : be32 m = be32 n) : m = n := by
+  have := congrArg beVal h
+  rwa [beVal_be32 m hm, beVal_be32 n hn] at this
+
+theorem encStr_append_inj (a b x y : Bytes) (ha : a.length < 4294967296) (hb : b.length < 4294967296)
+    (h : encStr a ++ x = encStr b ++ y) : a = b ∧ x = y := by
+  unfold encStr at h
+  rw [List.append_assoc, List.append_assoc] at h
+  have hl : (be32 a.length).length = (be32 b.length).length := by simp [be32]
+  have h1 := List.append_inj h hl
+  have hlen := be32_inj _ _ ha hb h1.1
+  have h2 := List.append_inj h1.2 hlen
+  exact h2
+
 end PV.Kex
